@@ -5,8 +5,8 @@ from .cfg import CFG
 
 
 class Ctx:
-    def __init__(self, repo=None):
-        self.prog = Program(repo)
+    def __init__(self, repo=None, modules=None):
+        self.prog = Program(repo, modules)
         self._cg = None
         self._cfgs = {}
         self._raising = None
